@@ -230,7 +230,7 @@ func seqCase(fams ...family) func(k *engine.Case) {
 				o.val = next
 				next++
 				if f == famPri {
-					o.prio = r.Intn(3)
+					o.prio = drawPrio(r)
 				}
 			}
 			if !step(i, o, "") {
